@@ -14,6 +14,7 @@
   strength.  The former counterexample witnesses are kept as regression examples.
 -/
 import PysamlModel.Proofs.C16
+import PysamlModel.Gen.EncryptDefaults
 
 namespace C16
 open Encrypt
@@ -106,18 +107,18 @@ def earlyWitness : Call :=
   { kw := ⟨some false, some true, some false, none, none⟩, pefim := true, md := [⟨.encryption, 1, true⟩] }
 
 example : effAdv callAdvOnly = true ∧
-    (wireOfCall callAdvOnly).body.outer.advice = some (.sealed 1 ⟨false, false⟩ true) := by decide
+    (wireOfCall callAdvOnly).body.outer.advice = some (.sealed 1 ⟨false, true⟩ true) := by decide
 /-- regression: the old early-return input now has its advice sealed before the assertion is signed -/
 example : effAdv earlyWitness = true ∧ earlyReturnClass earlyWitness = true ∧
     createAuthnResponse earlyWitness = .ok
-      { ops := [.encAdvice 1, .signAssertion], wire := wireOfCall earlyWitness,
+      { ops := [.encAdvice 1, .signAssertion], wire := wireOfCall earlyWitness, asString := true,
         trace := { branch := .encrypting, partB := true } } ∧
-    (wireOfCall earlyWitness).body.outer.advice = some (.sealed 1 ⟨false, false⟩ true) :=
+    (wireOfCall earlyWitness).body.outer.advice = some (.sealed 1 ⟨false, true⟩ true) :=
   ⟨by decide, by decide, rfl, by decide⟩
 /-- the early return is still taken when no advice is left to encrypt -/
 example : createAuthnResponse { earlyWitness with pefim := false } = .ok
     { ops := [.signAssertion], wire := { sig := none, body := .clear { sig := some none, advice := none } },
-      trace := { branch := .early } } := rfl
+      asString := true, trace := { branch := .early } } := rfl
 
 /-! ### a Response is issued -/
 
@@ -170,7 +171,7 @@ example : wellPosed callPefim = true := by decide
 example : wellPosed objectFormWitness = true ∧ objectFormClass objectFormWitness = true ∧
     (wireOfCall objectFormWitness).body = .sealed 1 {} true ∧
     createAuthnResponse objectFormWitness = .ok
-      { ops := [.encAssertion 1], wire := wireOfCall objectFormWitness,
+      { ops := [.encAssertion 1], wire := wireOfCall objectFormWitness, asString := true,
         trace := { branch := .encrypting, partC := true } } :=
   ⟨by decide, by decide, by decide, rfl⟩
 /-- the remaining refusals: no usable certificate at all -/
@@ -214,7 +215,7 @@ theorem C16_key_of_recipient (c : Call) (iss : Issued) (h : createAuthnResponse 
 
 example : (wireOfCall callRotate).body = .sealed 2 {} true ∧ candidates callRotate.certAssertion callRotate.md = [3, 2, 1] := by decide
 example : (wireOfCall { callPefim with certAdvice := .cert 2 true }).body =
-    .sealed 1 { sig := some (some (.sealed 2 ⟨false, false⟩ true)), advice := some (.sealed 2 ⟨false, false⟩ true) } true := by decide
+    .sealed 1 { sig := some (some (.sealed 2 ⟨false, true⟩ true)), advice := some (.sealed 2 ⟨false, true⟩ true) } true := by decide
 
 /-! ### signatures: order and validity at the recipient -/
 
@@ -246,7 +247,7 @@ theorem C16_ops_ordered (c : Call) (iss : Issued) (h : createAuthnResponse c = .
 
 example : createAuthnResponse callPefim = .ok
     { ops := [.encAdvice 1, .signAssertion, .encAssertion 1, .signResponse], wire := wireOfCall callPefim,
-      trace := { branch := .encrypting, partB := true, partC := true } } := rfl
+      asString := true, trace := { branch := .encrypting, partB := true, partC := true } } := rfl
 example : opsOrdered [.encAssertion 1, .signAssertion] = false ∧ opsOrdered [.signResponse, .encAssertion 1] = false := by decide
 
 /-- C16, signature order (2): in every call each signature that is present was computed over exactly
@@ -352,9 +353,13 @@ example : wellPosed callAdvOnly = true ∧ respSig (wireOfCall callAdvOnly) = .v
     outerSig (wireOfCall callAdvOnly).body.outer = .valid := by decide
 /-- regression (130fd4d2): the assertion of the old early-return input is now signed over its sealed advice -/
 example : outerSig (wireOfCall earlyWitness).body.outer = .valid := by decide
-/-- outside the theorem's hypotheses (no certificate at all): PEFIM's Issuer-less advice assertion stays in
-    clear inside the signed assertion and the signature check refuses it -/
-example : outerSig (wireOfCall { earlyWitness with md := [] }).body.outer = .corrupted := by decide
+/-- outside the theorem's hypotheses (no certificate at all): the clear fall-back.  Since 8a6bffac PEFIM's
+    advice assertion carries its Issuer, so the signed assertion around the clear advice verifies -/
+example : outerSig (wireOfCall { earlyWitness with md := [] }).body.outer = .valid ∧
+    (wireOfCall { earlyWitness with md := [] }).body.outer.advice = some (.clear ⟨false, true⟩) := by decide
+/-- outside the hypotheses, still refused: "" as certificate leaves a wrapper without EncryptedData, which the
+    schema check inside the Response signature verification rejects -/
+example : respSig (wireOfCall { callEnc with md := [], certAssertion := .empty }) = .corrupted := by decide
 
 /-- C16, recoverable: for every well-posed call, an undamaged Response and a
     recipient holding the private key(s) matching what was sealed — whenever the recipient's model accepts
@@ -396,10 +401,22 @@ def obsOk (i : Input) (iss : Issued) : Obs :=
     tampered := i.tamper && iss.wire.hasCiphertext
     sp := spObs i (receive i.rc (i.sent iss.wire)) (i.outcome iss.wire) }
 
-theorem observe_ok {i : Input} {iss : Issued} (h : createAuthnResponse i.call = .ok iss) : observe i = obsOk i iss := by
+theorem issue_ok {i : Input} {iss : Issued} (h : i.issue = .ok iss) : createAuthnResponse i.call = .ok iss := by
+  unfold Input.issue at h
+  split at h
+  · split at h
+    · cases h
+    next iss' hc =>
+      unfold ecpWrap at h
+      split at h
+      · cases h
+      · cases h; exact hc
+  · exact h
+
+theorem observe_ok {i : Input} {iss : Issued} (h : i.issue = .ok iss) : observe i = obsOk i iss := by
   unfold observe; rw [h]; rfl
 
-theorem observe_err {i : Input} {e : Refusal} (h : createAuthnResponse i.call = .error e) :
+theorem observe_err {i : Input} {e : Refusal} (h : i.issue = .error e) :
     observe i = { issued := false } := by
   unfold observe; rw [h]
 
@@ -586,21 +603,26 @@ theorem specIssued_model (i : Input) : specIssued i (observe i) = true := by
   cases hw : wellPosed i.call with
   | false => rfl
   | true =>
-    obtain ⟨iss, h⟩ := C16_issued i.call hw
-    rw [observe_ok h]
-    rfl
+    cases he : i.ecp with
+    | true => simp
+    | false =>
+      obtain ⟨iss, h⟩ := C16_issued i.call hw
+      have hi : i.issue = .ok iss := by simp [Input.issue, he, h]
+      rw [observe_ok hi]
+      simp [obsOk]
 
 /-- The model's observation satisfies the decidable specification the driver evaluates on the
     implementation's observation — for every input. -/
 theorem C16_model_meets_spec (i : Input) : spec i (observe i) = true := by
   have hiss := specIssued_model i
-  cases h : createAuthnResponse i.call with
+  cases hi : i.issue with
   | error e =>
-    rw [observe_err h] at hiss ⊢
+    rw [observe_err hi] at hiss ⊢
     simp only [spec, hiss, Bool.and_true]
     simp [specConfA, specConfAdv, specKey, specRecover, specWrongKey, specCorrupt, specOrder]
   | ok iss =>
-    rw [observe_ok h] at hiss ⊢
+    have h := issue_ok hi
+    rw [observe_ok hi] at hiss ⊢
     simp only [spec, hiss, specConfA_model i iss h, specConfAdv_model i iss h, specKey_model i iss h,
       specRecover_model i iss h, specWrongKey_model i iss, specCorrupt_model i iss,
       specOrder_model i iss h, Bool.and_self]
@@ -612,6 +634,29 @@ example : spec (inputOf earlyWitness [1] false) (observe (inputOf earlyWitness [
     (observe (inputOf earlyWitness [1] false)).wire.advice = .sealed := by decide
 example : spec (inputOf objectFormWitness [1] false) (observe (inputOf objectFormWitness [1] false)) = true ∧
     (observe (inputOf objectFormWitness [1] false)).issued = true := by decide
+
+/-! ### where a flag comes from -/
+
+/-- The signature defaults in the CURRENT source (regenerated table) are the ones the property's reading of
+    "requested" rests on: an omitted `sign_response` / `sign_assertion` / `encrypt_assertion` is `None`, so the
+    idp configuration is asked (for all three entry points), an omitted `encrypted_advice_attributes` is
+    `False`, an omitted `encrypt_assertion_self_contained` is `True`, an omitted `pefim` is `False`. -/
+theorem C16_entry_defaults :
+    (⟨Gen.EncryptDefaults.signResponse, Gen.EncryptDefaults.signAssertion, Gen.EncryptDefaults.encryptAssertion,
+      Gen.EncryptDefaults.encryptedAdvice, Gen.EncryptDefaults.selfContained⟩ : Opts Tri) = propSig ∧
+    Gen.EncryptDefaults.pefim = some false ∧
+    Gen.EncryptDefaults.rrSignResponse = none ∧ Gen.EncryptDefaults.rrSignAssertion = none ∧
+    Gen.EncryptDefaults.ecpSignResponse = none ∧ Gen.EncryptDefaults.ecpSignAssertion = none := by decide
+
+/-- encryption requested by the configuration alone: the argument is omitted, so it is `None` and the
+    configured `encrypt_assertion: true` decides - through `create_authn_response` and through the wrapper -/
+example : (resolve (kwOf .direct propSig none none ⟨none, none, none, none, none⟩) ⟨none, none, some true, none, none⟩
+    ⟨false, false, false, false, true⟩).encryptAssertion = true ∧
+    (resolve (kwOf .requestResponse propSig none none ⟨none, none, some (some false), none, none⟩) ⟨none, none, some true, none, none⟩
+    ⟨false, false, false, false, true⟩).encryptAssertion = true := by decide
+/-- the ECP entry point: issues an untouched Response object only -/
+example : (Input.issue { call := { kw := ⟨none, none, none, none, none⟩ }, ecp := true }).toOption.isSome = true ∧
+    Input.issue { call := callEnc, ecp := true } = .error .ecpNeedsObject := ⟨by decide, rfl⟩
 
 /-! ### histories -/
 
